@@ -72,15 +72,17 @@ Proof. reflexivity. Qed.
 Lemma dtimers_body_spec : forall cx g s,
   inv g s ->
   exists s1 tg g1, dtimers_body cx s = Ok (s1, tg) /\ inv g1 s1 /\ (g1 = g \/ g1 = g_rewind g) /\
-                   frame s s1 /\ s_tuple s1 = s_tuple s.
+                   frame s s1 /\ s_tuple s1 = s_tuple s /\
+                   s_remote_last_ack s1 = s_remote_last_ack s /\
+                   s_remote_last_win s1 = s_remote_last_win s.
 Proof.
   intros cx g s Hinv. pose proof Hinv as (Htx & Htm). unfold dtimers_body.
   destruct (tcp_timed_out s (cx_now cx)).
   - eexists _, _, g. split; [reflexivity|]. split; [apply abort_inv; exact Hinv|].
-    split; [auto|]. split; [|reflexivity]. unfold frame, tcp_set_state. fld. repeat split; auto.
+    split; [auto|]. split; [|repeat split; reflexivity]. unfold frame, tcp_set_state. fld. repeat split; auto.
   - destruct (timer_should_retransmit (s_timer s) (cx_now cx)) eqn:Esr.
     2: { eexists _, _, g. split; [reflexivity|]. split; [exact Hinv|]. split; [auto|].
-         split; [apply frame_refl|reflexivity]. }
+         split; [apply frame_refl|repeat split; reflexivity]. }
     rewrite (flight_size_ok _ _ Htx). cbn [obind].
     pose proof Htx as (Hwf & Hcap & Ha & Hlen & Hc & Hl & Hr & Hf & Hhw & Hpo & Hw & Hs).
     pose proof Hwf as (Hl0 & _).
@@ -105,25 +107,25 @@ Proof.
         -- split; [unfold tx_inv; fld; exact Hrw|].
            unfold tm_inv, tm_inv_f. fld. unfold timer_set_for_retransmit, timer_set_for_idle. cbn.
            split; discriminate.
-        -- split; [unfold frame; fld; repeat split; auto|reflexivity].
+        -- split; [unfold frame; fld; repeat split; auto|repeat split; reflexivity].
       * destruct ((s_remote_win_len s =? 0) && negb (rb_is_empty (s_tx_buffer s))) eqn:Ez.
         -- eexists _, _, (g_rewind g). split; [reflexivity|]. split; [|split; [auto|]].
            ++ split; [unfold tx_inv; fld; exact Hrw|].
               unfold tm_inv, tm_inv_f. fld. unfold timer_set_for_zero_window_probe. cbn.
               apply andb_prop in Ez. destruct Ez as (Ez & _). apply Z.eqb_eq in Ez.
               split; [intros _; exact Ez|discriminate].
-           ++ split; [unfold frame; fld; repeat split; auto|reflexivity].
+           ++ split; [unfold frame; fld; repeat split; auto|repeat split; reflexivity].
         -- eexists _, _, (g_rewind g). split; [reflexivity|]. split; [|split; [auto|]].
            ++ split; [unfold tx_inv; fld; exact Hrw|].
               unfold tm_inv, tm_inv_f. fld. unfold timer_set_for_idle, g_rewind. cbn.
               split; [discriminate|auto].
-           ++ split; [unfold frame; fld; repeat split; auto|reflexivity].
+           ++ split; [unfold frame; fld; repeat split; auto|repeat split; reflexivity].
     + (* fast retransmit *)
       fld. eexists _, _, g. split; [reflexivity|]. split; [|split; [auto|]].
       * split; [unfold tx_inv; fld; exact Htx|].
         unfold tm_inv, tm_inv_f. fld. unfold timer_set_for_retransmit, timer_set_for_idle. cbn.
         split; discriminate.
-      * split; [unfold frame; fld; repeat split; auto|reflexivity].
+      * split; [unfold frame; fld; repeat split; auto|repeat split; reflexivity].
 Qed.
 
 (* ------------------------------------------------------------------------------------------ *)
@@ -318,3 +320,88 @@ Proof.
     + unfold tm_inv, tm_inv_f in *. rewrite B2, B5, B13, C1, C2. exact Htm2.
 Qed.
 
+
+(* ------------------------------------------------------------------------------------------ *)
+(* totality: under the invariant the sender-side computations of dispatch never panic           *)
+(* ------------------------------------------------------------------------------------------ *)
+Lemma stt_total : forall cx g s, inv g s -> ctx_ok cx -> s_tuple s <> None ->
+  exists b, tcp_seq_to_transmit cx s = Ok b.
+Proof.
+  intros cx g s (Htx & Htm) Hcx Ht. unfold tcp_seq_to_transmit.
+  destruct (_ && _ && _); [eexists; reflexivity|].
+  destruct (s_tuple s); [|congruence].
+  rewrite (tcp_local_mss_ok _ Hcx). cbn [obind].
+  destruct (_ && negb _); [eexists; reflexivity|].
+  pose proof Htx as (Hwf & Hcap & Ha & Hlen & Hc & Hl & Hr & Hf & Hhw & Hpo & Hw & Hs).
+  pose proof Hwf as (Hl0 & _).
+  pose proof (budget_bound g (rb_len (s_tx_buffer s)) ltac:(lia)) as Hb.
+  pose proof max_window_val as Hmw.
+  unfold tcp_cwnd_remaining. rewrite (flight_size_ok _ _ Htx).
+  rewrite Hl, Hr, seq_add_sq.
+  replace (g_iss g + g_una g + Z.min (s_remote_win_len s) (rb_len (s_tx_buffer s)))
+    with (g_iss g + (g_una g + Z.min (s_remote_win_len s) (rb_len (s_tx_buffer s)))) by lia.
+  replace (g_iss g + g_una g + g_flight g) with (g_iss g + (g_una g + g_flight g)) by lia.
+  rewrite seq_ge_sq, seq_sub_sq by lia.
+  destruct (Z.geb_spec (g_una g + Z.min (s_remote_win_len s) (rb_len (s_tx_buffer s)))
+                       (g_una g + g_flight g)).
+  - destruct (Z.ltb_spec (g_una g + Z.min (s_remote_win_len s) (rb_len (s_tx_buffer s)))
+                         (g_una g + g_flight g)); [lia|].
+    cbn [obind]. eexists; reflexivity.
+  - cbn [obind]. eexists; reflexivity.
+Qed.
+
+Lemma build_data_total : forall cx g s repr,
+  inv g s -> ctx_ok cx -> base_repr repr ->
+  exists res, tcp_dispatch_build_data cx s repr = Ok res.
+Proof.
+  intros cx g s repr (Htx & Htm) Hcx Hbase.
+  pose proof Htx as (Hwf & Hcap & Ha & Hlen & Hc & Hl & Hr & Hf & Hhw & Hpo & Hw & Hs).
+  pose proof Hwf as (Hl0 & _).
+  pose proof (budget_bound g (rb_len (s_tx_buffer s)) ltac:(lia)) as Hb.
+  pose proof max_window_val as Hmw.
+  unfold tcp_dispatch_build_data.
+  rewrite (base_header_len _ Hbase). unfold usub.
+  assert (Hopt : 0 <= opt_len repr) by (unfold opt_len; destruct (is_some _); lia).
+  replace (wtcp_HEADER_LEN + opt_len repr - wtcp_HEADER_LEN) with (opt_len repr) by lia.
+  destruct (Z.ltb_spec (opt_len repr) 0); [lia|]. cbn [obind].
+  rewrite (tcp_local_mss_ok _ Hcx). cbn [obind].
+  destruct (s_pending_fast_retransmit s && (s_remote_win_len s >? 0)); cbn [obind].
+  - eexists; reflexivity.
+  - rewrite Hl, Hr, seq_add_sq.
+    replace (g_iss g + g_una g + s_remote_win_len s) with (g_iss g + (g_una g + s_remote_win_len s)) by lia.
+    replace (g_iss g + g_una g + g_flight g) with (g_iss g + (g_una g + g_flight g)) by lia.
+    rewrite seq_ge_sq, seq_sub_sq by lia.
+    rewrite <- Hl, <- Hr || idtac.
+    unfold tcp_cwnd_remaining.
+    assert (Hfs : tcp_flight_size s = Ok (g_flight g)) by (apply (flight_size_ok g); exact Htx).
+    destruct (Z.geb_spec (g_una g + s_remote_win_len s) (g_una g + g_flight g)).
+    + destruct (Z.ltb_spec (g_una g + s_remote_win_len s) (g_una g + g_flight g)); [lia|].
+      cbn [obind]. rewrite Hfs.
+      destruct (_ && timer_should_zero_window_probe _ _); cbn [obind]; eexists; reflexivity.
+    + cbn [obind]. rewrite Hfs.
+      destruct (_ && timer_should_zero_window_probe _ _); cbn [obind]; eexists; reflexivity.
+Qed.
+
+Lemma post_build_total : forall cx s repr zwp tg, ctx_ok cx ->
+  exists s2 r zwp2 ka tg2, post_build cx s repr zwp tg = Ok (s2, Some r, zwp2, ka, tg2).
+Proof.
+  intros cx s repr zwp tg Hcx. unfold post_build. rewrite (tcp_local_mss_ok _ Hcx).
+  match goal with |- context [if control_eqb ?c CSyn then _ else _] => destruct (control_eqb c CSyn) end;
+  cbn [obind]; do 5 eexists; reflexivity.
+Qed.
+
+Lemma build_total : forall cx g s t, inv g s -> ctx_ok cx ->
+  exists res, tcp_dispatch_build cx s t = Ok res.
+Proof.
+  intros cx g s t Hinv Hcx. rewrite build_unfold. cbv zeta.
+  match goal with |- context [tcp_dispatch_build_data cx s ?r] => set (repr := r) end.
+  assert (Hbase : base_repr repr) by apply base_repr_mk.
+  destruct (build_data_total cx g s repr Hinv Hcx Hbase) as ([[[s2 orp] zwp] tg] & Eb).
+  assert (Hpost : forall s0 rp zwp0 tg0, exists res, post_build cx s0 rp zwp0 tg0 = Ok res).
+  { intros s0 rp zwp0 tg0.
+    destruct (post_build_total cx s0 rp zwp0 tg0 Hcx) as (a & b & c & d & e & E).
+    eexists. exact E. }
+  destruct (s_state s); cbn [obind]; try apply Hpost; try (eexists; reflexivity);
+  try (destruct (s_syn_unacked_in_fin_wait s); cbn [obind]; [apply Hpost|]);
+  rewrite Eb; cbn [obind]; (destruct orp; [apply Hpost|eexists; reflexivity]).
+Qed.
